@@ -3827,7 +3827,8 @@ static Value eval_expression(ASTNode *expr, Environment *env) {
             
             /* Set elements */
             for (int i = 0; i < count; i++) {
-                Value elem = eval_expression(expr->as.array_literal.elements[i], env);
+                /* The first element was already evaluated above: evaluate each element exactly once */
+                Value elem = (i == 0) ? first : eval_expression(expr->as.array_literal.elements[i], env);
                 
                 /* Store element in array data */
                 switch (elem_type) {
